@@ -62,7 +62,7 @@ def execOp (I : Idna) (st : St) (op : List String) : St :=
     let cfg := cfgOfTok c
     let r := parseRef cfg I (tokBytes b) (tokBytes x)
     let a := st.H.allocRes cfg r
-    pushUrl { st with extraQ := st.extraQ ++ resQ r } a.1 a.2 r.ret
+    pushUrl { st with extraQ := st.extraQ ++ resQ r ++ resQ (parse cfg I (tokBytes b)) } a.1 a.2 r.ret
   | ["R", h, x] =>
     let r := st.H.urlParse I (U h) (tokBytes x)
     -- the failing result's log is not kept in the heap; re-run at value level to see its queries
